@@ -349,6 +349,9 @@ func runC20(r *Run) {
 	}
 	for i := 0; i < n; i++ {
 		src := c20Blocks(rr, 2)
+		if i%7 == 3 { // a document that begins with blank lines (an editor's leading line break, CRLF files)
+			src = Pick(rr, []string{"\n", "\n\n", "\r\n", "\n \n", "\r\n\r\n"}) + src
+		}
 		c20UseSite = i%3 == 2 // every third document through the renderer whose site data defines the templates' names
 		// every fifth document as a file with front-matter, through Load and Document.Render (a document that itself begins
 		// with a thematic break or a setext underline would be taken for more front-matter: those stay with RenderBytes)
